@@ -726,6 +726,7 @@ class Module(HasAccessibles):
                     m.pollInfo.last_main = 0
                     m.pollInfo.last_slow = 0
                 trg.set()
+                return True  # keep the callback registered for the following reconnects
             self.registerReconnectCallback('trigger_polls', trigger_all)
 
         # collect all read functions
